@@ -232,7 +232,8 @@ impl Directive {
                                     && (segment.address != 0
                                         || segment.items.iter().any(|(_, item)| match item {
                                             Item::Instruction(Operation::Custom(_), _) => false,
-                                            Item::Instruction(..) | Item::Data(..) => true,
+                                            Item::Instruction(..) => true,
+                                            Item::Data(_, values) => values.actual_len() > 0,
                                             Item::ReserveData(size) => *size > 0,
                                             _ => false,
                                         }))
